@@ -21,6 +21,7 @@ type Options struct {
 	NilChecks bool
 	StrBytes  bool
 	Sweep     bool // safety-only sweep: no contracts required
+	StdFile   string
 }
 
 type implQ struct {
@@ -53,8 +54,16 @@ type Engine struct {
 	typeCache   map[string]types.Type
 	mutGlobals  map[string]bool
 	pureCache   map[*ssa.Function]bool
+	typeInvs    []*typeInvInfo
 	byName      map[string]*types.Package
 	Errors      []string
+}
+
+type typeInvInfo struct {
+	c   *TypeInvC
+	pkg *types.Package
+	ty  types.Type // named (value) type
+	ptr bool
 }
 
 type lemmaInfo struct {
@@ -185,6 +194,23 @@ func (e *Engine) scanGlobalStores() {
 // contracts
 
 func (e *Engine) loadContracts() error {
+	std := e.opts.StdFile
+	if std == "" {
+		std = "/verif/contracts/std.gvc"
+	}
+	if _, err := os.Stat(std); err == nil {
+		cf, err := ParseContractFile(std)
+		if err != nil {
+			return err
+		}
+		for _, fc := range cf.Funcs {
+			if fc.Kind != "extern" {
+				return fmt.Errorf("%s: only extern contracts are allowed in the std file", std)
+			}
+			e.externs[fc.Ref] = fc
+			e.externPkg[fc] = nil
+		}
+	}
 	for _, p := range e.Pkgs {
 		if len(p.GoFiles) == 0 {
 			continue
@@ -209,6 +235,15 @@ func (e *Engine) loadContracts() error {
 		}
 		for _, l := range cf.Lemmas {
 			e.lemmas = append(e.lemmas, &lemmaInfo{l, p.Types})
+		}
+		for _, ti := range cf.TypeInvs {
+			name := strings.TrimPrefix(ti.Type, "*")
+			obj := p.Types.Scope().Lookup(name)
+			tn, ok := obj.(*types.TypeName)
+			if !ok {
+				return fmt.Errorf("%s:%d: typeinv: type %q not found", ti.File, ti.Line, name)
+			}
+			e.typeInvs = append(e.typeInvs, &typeInvInfo{c: ti, pkg: p.Types, ty: tn.Type(), ptr: strings.HasPrefix(ti.Type, "*")})
 		}
 		for _, a := range cf.Axioms {
 			e.axioms = append(e.axioms, &axiomInfo{a, p.Types})
@@ -539,6 +574,13 @@ func (e *Engine) VerifyFunc(fn *ssa.Function) (vc *VC) {
 		}
 		args = append(args, tv)
 	}
+	for i, p := range fn.Params {
+		if _, ok := p.Type().Underlying().(*types.Pointer); ok {
+			for _, fact := range f.ptrInvs(args[i], st, false) {
+				vc.assert(fact)
+			}
+		}
+	}
 	// preconditions
 	if fc != nil {
 		env := &Env{f: f, vars: map[string]TV{}, st: st, pkg: fn.Pkg.Pkg}
@@ -571,6 +613,7 @@ func (e *Engine) VerifyFunc(fn *ssa.Function) (vc *VC) {
 		rst := r.st
 		vc.obls = append(vc.obls, &Obl{Name: vc.uniqueName(f.namePfx + "/cover/return"), Kind: "cover", Guard: rst.alive, Goal: "true", Cover: true, Func: f.namePfx, NAsserts: len(vc.asserts)})
 		_ = i
+		e.typeInvObligations(f, fn, args, r)
 		if fc == nil {
 			continue
 		}
@@ -649,5 +692,42 @@ func (e *Engine) finishVC(vc *VC, f *frame) {
 		}
 		vc.assert(fmt.Sprintf("(and (> (i_tag %s) 0) (= (i_box %s) %d))", n, n, 900000+i))
 		vc.note("assumed: package-level error variables are non-nil, pairwise distinct and never reassigned")
+	}
+}
+
+// typeInvObligations: functions of the package that declares a (proved) type
+// invariant must establish it for every value of that type they return and
+// for every object of that type they received through a pointer.
+func (e *Engine) typeInvObligations(f *frame, fn *ssa.Function, args []TV, r retInfo) {
+	if fn.Pkg == nil {
+		return
+	}
+	for _, ti := range e.typeInvs {
+		if ti.c.Assumed || ti.pkg != fn.Pkg.Pkg {
+			continue
+		}
+		check := func(what string, self TV, st *bstate) {
+			env := &Env{f: f, vars: map[string]TV{"self": self}, st: st, pkg: ti.pkg}
+			g := f.transBool(ti.c.Expr, env)
+			st2 := st.clone()
+			c := &Clause{Kind: "typeinv", Text: ti.c.Text, File: ti.c.File, Line: ti.c.Line}
+			f.obligeClause(st2, "typeinv", what+":"+ti.c.Type+":"+ti.c.Text, g, c, r.instr.Pos())
+		}
+		for k, rv := range r.results {
+			if rv.Ty != nil && !ti.ptr && types.Identical(rv.Ty, ti.ty) {
+				check(fmt.Sprintf("result%d", k), rv, r.st)
+			}
+		}
+		for i, p := range fn.Params {
+			pt, ok := p.Type().Underlying().(*types.Pointer)
+			if !ok || !types.Identical(pt.Elem(), ti.ty) {
+				continue
+			}
+			if ti.ptr {
+				check("*"+p.Name(), args[i], r.st)
+			} else {
+				check("*"+p.Name(), TV{T: f.loadStruct(r.st, pt.Elem(), args[i].T), S: f.sortOf(pt.Elem()), Ty: pt.Elem()}, r.st)
+			}
+		}
 	}
 }
